@@ -419,6 +419,9 @@ class Program:
                 why = None
                 if any(isinstance(n, ast.Name) and "__h" in n.id for n in ast.walk(fn)):
                     why = "locals of an inlined helper remain"
+                elif any(isinstance(n, ast.FunctionDef) and n is not fn for n in ast.walk(fn)) and not rel.endswith("plotting.py") \
+                        and "plot" not in fn.name:
+                    why = "defines a nested function that could not be lifted out"
                 else:
                     for n in ast.walk(fn):
                         if isinstance(n, ast.Call):
